@@ -189,7 +189,7 @@ def _hist_violation(res, fam, opts, hist, k, script, symptom, what, piece):
         pieces = split_marked(x.out)
         return k + 1 < len(pieces) and pieces[k + 1].strip() == piece
     if S.confirm(script, (), pred):
-        rec = {'logic': fam.logic, 'family': fam.name, 'options': sorted(opts), 'symptom': symptom, 'what': what[:300],
+        rec = {'logic': fam.logic, 'family': fam.name, 'options': sorted(opts), 'engine': S.engine_of(opts), 'symptom': symptom, 'what': what[:300],
                'history_shape': ','.join(x if not x.startswith('a') else 'assert' for x in hist[:k + 1]), 'input_class': 'history'}
         res['violations'].append((rec, script, 'smt2'))
     else:
